@@ -34,6 +34,7 @@ d, name, p0, trc, p1 = sys.argv[1:6]
 a = {}
 try: a = json.load(open(os.path.join(d, 'meta.agent.json')))
 except Exception: pass
+if 'confirmed_by_me' in a: a = {k: a.get(k) for k in ('property', 'what_changed', 'needs_to_manifest', 'why_tests_pass')}
 head = subprocess.run(['git', '-C', '/repo', 'rev-parse', '--short', 'HEAD'], capture_output=True, text=True).stdout.strip()
 m = {'name': name, 'property': a.get('property', name[:3]), 'what_changed': a.get('what_changed'), 'needs_to_manifest': a.get('needs_to_manifest'), 'why_tests_pass': a.get('why_tests_pass'),
      'confirmed_by_me': {'repo_head': head, 'scratch_worktree': '/tmp/cs/' + name + ' (removed)', 'ran': ['sh _seed/build_demo.sh (pristine) -> exit ' + p0, 'patch applied; cmake+ninja build -> ok', './inovesa-test (all 42 cases) -> rc ' + trc, 'sh _seed/build_demo.sh (with change) -> exit ' + p1]},
